@@ -97,8 +97,16 @@ def classify(exc):
     return f"{name}: {msg[:80]}"
 
 
+def dead_spelling(dead):
+    """the same dead-element flags in the spellings a caller may use: bool array, 0/1 integers, lists"""
+    r = int(rng.integers(0, 6))
+    d = np.asarray(dead, bool)
+    return [d, d.astype(np.uint8), d.astype(np.int64), d.tolist(), [int(v) for v in d], d.astype(float)][r]
+
+
 def make_probe(kind, n, pitch, ref, dead):
     """a linear probe whose PCS is the GCS; returns the probe (fresh object)."""
+    dead = dead_spelling(dead)
     if isinstance(kind, str) and kind == "matrix":
         p = arim.Probe.make_matrix_probe(n, pitch, 1, np.nan, 1e6, dead_elements=dead)
         p.set_reference_element(ref)
@@ -337,11 +345,26 @@ for c, o in zip(pending, outs):
         x_ref = float(xs_pcs[newref, 0]) if x_ref is None else float(x_ref)
         xs2 = xs_pcs[:, 0] - x_ref                      # abscissae in the re-referenced probe frame (computed without arim)
         err2 = None
+        order2 = int(rng.integers(0, 2))
         try:
-            probe.set_reference_element(newref)
-            probe.reset_position()
+            if order2 == 0:
+                probe.set_reference_element(newref)
+                probe.reset_position()
+            else:           # the other documented order: back to the GCS first, then another reference element
+                probe.reset_position()
+                probe.set_reference_element(newref)
+                probe.translate_to_point_O()
         except Exception as e:      # noqa: BLE001
             err2 = classify(e)
+        gcs_state = (np.array(g.GCS.origin, float), np.array(g.GCS.i_hat, float), np.array(g.GCS.j_hat, float), np.array(g.GCS.k_hat, float))
+        if not (np.array_equal(gcs_state[0], [0, 0, 0]) and np.array_equal(gcs_state[1], [1, 0, 0])
+                and np.array_equal(gcs_state[2], [0, 1, 0]) and np.array_equal(gcs_state[3], [0, 0, 1])):
+            chk.violation("A:history-gcs", "re-referencing a reset probe changed the global coordinate system constant geometry.GCS "
+                          "(every later registration in the process is measured against it)",
+                          dict(replay, history=["move_probe_over_flat_surface(distance_to_surface)", "reset_position()",
+                                                f"set_reference_element({newref!r})", "translate_to_point_O()"],
+                               gcs_origin=gcs_state[0], gcs_i_hat=gcs_state[1], gcs_j_hat=gcs_state[2], gcs_k_hat=gcs_state[3]))
+            g.GCS.origin[...] = 0.0     # restore, so that one defect is reported once and not on every later case
         th2 = math.radians(float(rng.uniform(-40.0, 40.0)))
         z2 = -(float(rng.uniform(0.5e-3, 60e-3)) + (float(np.max(np.abs(xs2))) + 1e-4) * abs(math.sin(th2)))
         P2z = -math.sin(th2) * xs2 + z2
@@ -350,8 +373,10 @@ for c, o in zip(pending, outs):
         impl2 = run_impl_move(probe, tx, rx, ds2) if err2 is None else {"err": err2}
         evaluations += 1
         chk.count(A_history="registered, re-referenced, reset, registered again")
-        rep2 = dict(replay, history=["move_probe_over_flat_surface(distance_to_surface)", f"set_reference_element({newref!r})",
-                                     "reset_position()", "move_probe_over_flat_surface(distance_to_surface_2)"],
+        rep2 = dict(replay, history=["move_probe_over_flat_surface(distance_to_surface)"]
+                    + ([f"set_reference_element({newref!r})", "reset_position()"] if order2 == 0 else
+                       ["reset_position()", f"set_reference_element({newref!r})", "translate_to_point_O()"])
+                    + ["move_probe_over_flat_surface(distance_to_surface_2)"],
                     distance_to_surface_2=ds2, true_theta_2=th2, true_z_o_2=z2, second_error=impl2["err"])
         sc2 = float(max(np.max(np.abs(xs2)), abs(z2), 1e-3))
         if impl2["err"] is not None:
@@ -497,7 +522,7 @@ for it in range(num_fp):
         pitch = (abs(j) * dt * c_f / (2 * s) if j else float(rng.uniform(0.3e-3, 1.5e-3))) * float(rng.choice([-1, 1]))
     else:
         pitch = float(rng.choice([-1, 1]) * rng.uniform(0.3e-3, 1.5e-3))
-    probe = arim.Probe.make_matrix_probe(n, pitch, 1, np.nan, 1e6, dead_elements=dead)
+    probe = arim.Probe.make_matrix_probe(n, pitch, 1, np.nan, 1e6, dead_elements=dead_spelling(dead))
     probe.set_reference_element(ref)
     xs = np.array(probe.locations_pcs.x, float)
     if on_grid:
@@ -826,6 +851,14 @@ for name, cases, meta, ctype, fn, what in (
         spec_holds = meta[i].get("impl") == meta[i].get("spec") if name == "detect" else True
         chk.violation(f"C:{name}-model", what, meta[i], failing_input_found=not spec_holds)
 samples.append({"detect_surface": det_meta[0]})
+
+# ---- the global coordinate system is a constant of the process: nothing the registrations did may have moved it
+evaluations += 1
+if not (np.array_equal(np.asarray(g.GCS.origin, float), [0, 0, 0]) and np.array_equal(np.asarray(g.GCS.i_hat, float), [1, 0, 0])
+        and np.array_equal(np.asarray(g.GCS.j_hat, float), [0, 1, 0]) and np.array_equal(np.asarray(g.GCS.k_hat, float), [0, 0, 1])):
+    chk.violation("gcs-constant", "geometry.GCS is no longer the origin with the unit axes after the registrations of this run",
+                  dict(gcs_origin=np.asarray(g.GCS.origin, float), gcs_i_hat=np.asarray(g.GCS.i_hat, float),
+                       gcs_j_hat=np.asarray(g.GCS.j_hat, float), gcs_k_hat=np.asarray(g.GCS.k_hat, float)), failing_input_found=True)
 
 chk.finish(
     evaluations=evaluations, distinct_nontrivial=len(nontrivial),
